@@ -18,7 +18,7 @@ import (
 // durable stores S.*, the closure log (inc/peek), deterministic state C/F and
 // the read-back function.
 const preludeJS = `
-var S={v:{},d:{},P:function(){},a:{},w:{},arr:[],n:0};
+var S={v:{},d:{},P:function(){},a:{},w:{},arr:[],n:0,srt:[5,2,7,1,4,6,3],srt2:[12,3,9,1,11,5,7,2,10,4,8,6]};
 var C=0, F=400, flag=false, t, GQ={};
 var inc, peek;
 (function(){var log=[]; inc=function(x){log[log.length]=x}; peek=function(){return log.join(',')}})();
@@ -28,7 +28,7 @@ function __rb(){
   for(i=0;i<ks.length;i++){var ds=Object.getOwnPropertyDescriptor(S.d,ks[i]); d[ks[i]]=[ds.value,ds.enumerable,ds.writable,ds.configurable];}
   var P={}, pk=Object.getOwnPropertyNames(S.P.prototype);
   for(i=0;i<pk.length;i++){ if(pk[i]!='constructor') P[pk[i]]=S.P.prototype[pk[i]]; }
-  return JSON.stringify({v:S.v,d:d,P:P,a:S.a,w:S.w,arr:S.arr,log:peek(),gk:Object.keys(S).join(',')});
+  return JSON.stringify({v:S.v,d:d,P:P,a:S.a,w:S.w,arr:S.arr,log:peek(),gk:Object.keys(S).join(','),srt:S.srt.slice().sort(function(a,b){return a-b}).join()+'|'+S.srt2.slice().sort(function(a,b){return a-b}).join()+'|'+S.srt.length+'|'+S.srt2.length});
 }
 `
 
@@ -116,7 +116,7 @@ type PG struct {
 var allKinds = []string{
 	"tx", "if", "for", "while", "dowhile", "forin", "label", "brk", "switch", "try", "throw",
 	"with", "fn", "call", "callback", "accessor", "coerce", "eval", "closure", "debugger",
-	"hostfault", "flag", "recurse", "reenter", "var", "ctx",
+	"hostfault", "flag", "recurse", "reenter", "var", "ctx", "sortcons",
 }
 
 func (g *PG) n(lo, hi int, label string) int {
@@ -387,6 +387,13 @@ func (g *PG) stmt(c genCtx) string {
 		return "var " + cN + "=(function(){var k=0;return function(){k++;" + fb + "return k}})();" + cN + "();S.n+=" + cN + "();"
 	case "debugger":
 		return "debugger;"
+	case "sortcons":
+		// an in-place native operation driven by a script callback: wherever it is
+		// cut short, the array must still hold exactly its elements
+		fb := g.fnBody(c)
+		arr := []string{"S.srt", "S.srt2"}[g.n(0, 1, "srtwhich")]
+		cmp := []string{"a-b", "b-a", "(a%3)-(b%3)||a-b"}[g.n(0, 2, "srtcmp")]
+		return arr + ".sort(function(a,b){" + fb + "return " + cmp + "});"
 	case "ctx":
 		// a host function asks for Otto.Context() while a visible binding is an
 		// accessor: Context runs the getter, so faults can land inside it
